@@ -107,14 +107,14 @@ def run(ix, R):
         st = one(sts, 'store into tau')
         phis = [a for a in st.value.all_atoms() if fl.tab.atoms[a].head == 'phi'
                 and fl.tab.atoms[a].args[0] == au.name]
-        ok = (len(st.loops) == 1 and st.loops[0] is au.loops[0] and
+        ok = (len(st.loops) == 1 and st.loops[0] is au.loops[0] and not st.guards and not au.guards and
               fl.tab.equal(st.target, spec(fl, 'tau[layer, wn]', dict(env, wn=st.loops[0].index))) and
               len(phis) == 1)
         if ok:
             from sa.algebra import p_atom
             ph = RF(fl.tab, p_atom(phis[0]))
             ok = fl.tab.equal(st.value, -fl.tab.log('log', ph))
-        R.check('1.log', 'ALG', site, 'tau[layer, wn] += -log(transmittance) once per wavenumber',
+        R.check('1.log', 'ALG', site, 'tau[layer, wn] += -log(transmittance) unconditionally, once per wavenumber (an underflowed transmittance must give infinite, not zero, optical depth)',
                 ok, key='%s' % unparse(st.node), detail='final store is %s = %s' % (
                     unparse(st.node), fmt(fl, st.value)), loc=f.loc(st.node))
     # ---- 2. siblings
@@ -219,6 +219,7 @@ def switch_obligations(ix, R):
 
 
 MUTANTS = [
+    ('seed-C20A-log-guard', A, '        tau[layer, wn] += -math.log(transtemp)', '        if transtemp > 0.0:\n            tau[layer, wn] += -math.log(transtemp)', '1.log'),
     ('k-drop-weights', A, 'transtemp += math.exp(-tau_temp[wn, g]) * weights[g]', 'transtemp += math.exp(-tau_temp[wn, g])', '1.trans'),
     ('k-sign', A, 'transtemp += math.exp(-tau_temp[wn, g]) * weights[g]', 'transtemp += math.exp(tau_temp[wn, g]) * weights[g]', '1.trans'),
     ('k-nolog', A, 'tau[layer, wn] += -math.log(transtemp)', 'tau[layer, wn] += 1 - transtemp', '1.log'),
